@@ -1,6 +1,120 @@
-//! C10 — not built yet.
-use crate::ev::Tier;
-pub fn main(_tier: Tier, _replay: Option<serde_json::Value>) -> i32 {
-    eprintln!("C10: check not built yet");
-    2
+//! C10 — bitwise AND / XOR components return exactly the truncated result.
+
+use std::sync::Arc;
+
+use serde_json::json;
+
+use crate::dispatch;
+use crate::e2::{self, Dev, Gadget, Honest};
+use crate::ev::{Run, Tier};
+use crate::fe::*;
+use crate::gadget::*;
+use crate::m5;
+
+fn pair_counts(tier: Tier) -> Vec<usize> {
+    match tier {
+        Tier::Quick => vec![0, 1, 2, 3, 4, 31, 32, 33, 63, 64, 126, 127],
+        Tier::Thorough => (0..=127).collect(),
+    }
+}
+
+fn input_pairs(p: usize, seed: u64) -> Vec<(Fe, Fe)> {
+    let w = 2 * p;
+    let mut rho = Rho::new(seed, 1300 + p as u64);
+    let (r1, r2, r3) = (rho.next_fe(), rho.next_fe(), rho.next_fe());
+    let ones = pow2(w) - one();
+    // small x so that the alias x + r still fits 255 bits
+    let gap = U320::pow2(255).sub(&U320::modulus());
+    let small = gap.sub(&U320::from_u64(12345)).to_fe();
+    vec![
+        (zero(), zero()),
+        (ones, ones),
+        (neg1(), r1),
+        (r2, r3),
+        (m5::low_bits(&r2, w.min(250)), m5::low_bits(&r2, w.min(250)) + pow2(w)),
+        (ones, pow2(w)),
+        (small, fe(0x5555_5555_5555_5555)),
+    ]
+}
+
+fn gadget(xor: bool, p: usize, a: Fe, b: Fe) -> Gadget {
+    Gadget::new(&format!("logic/{}/p{}", if xor { "xor" } else { "and" }, p), vec![a, b], move |c, ins| {
+        let o = if xor { dispatch::logic_xor(c, ins[0], ins[1], p) } else { dispatch::logic_and(c, ins[0], ins[1], p) };
+        Ok(vec![o])
+    })
+}
+
+/// The alias adversary for one operand: accumulators, products and outputs as
+/// if the operand were the integer x + r, plus the matching `high` part.
+fn alias_devs(xor: bool, p: usize, a: Fe, b: Fe, h: &Honest) -> Vec<Dev> {
+    let mut devs = vec![];
+    if p == 0 {
+        return devs;
+    }
+    let w = 2 * p;
+    let lo = h.meta.lo;
+    let loop_allocs = 4 * p;
+    let after = h.meta.hi - lo - loop_allocs;
+    if after % 2 != 0 {
+        return devs;
+    }
+    let k = after / 2;
+    for (which, x) in [(0usize, a), (1usize, b)] {
+        let alias = U320::from_fe(&x).add(&U320::modulus());
+        if !alias.lt(&U320::pow2(255)) {
+            continue;
+        }
+        let low_a = alias.low(w).to_fe();
+        let high_a = alias.shr(w).to_fe();
+        // honest loop allocations for the operand replaced by a value whose low
+        // bits are those of x + r
+        let (ya, yb) = if which == 0 { (low_a, b) } else { (a, low_a) };
+        let g2 = gadget(xor, p, ya, yb);
+        let Ok(h2) = e2::honest(&g2) else { continue };
+        let mut script: Vec<(usize, Fe)> = (0..loop_allocs).map(|i| (lo + i, h2.snap.witnesses[h2.meta.lo + i])).collect();
+        let high_ord = lo + loop_allocs + which * k;
+        script.push((high_ord, high_a));
+        devs.push(Dev { script, tag: format!("alias-operand{}=x+r", which) });
+    }
+    devs
+}
+
+pub fn cases(tier: Tier) -> Vec<GCase> {
+    let seed = seed();
+    let mut out = vec![];
+    for p in pair_counts(tier) {
+        for (a, b) in input_pairs(p, seed) {
+            for xor in [false, true] {
+                let g = gadget(xor, p, a, b);
+                let spec = m5::logic(&a, &b, 2 * p, xor);
+                let mut c = GCase::new(g, Expect::Sat(vec![spec]), &format!("logic/{}", if xor { "xor" } else { "and" }));
+                c.named = Some(Arc::new(move |h: &Honest| alias_devs(xor, p, a, b, h)));
+                c.extra = Some(Arc::new(move |_k, v| vec![("+2".into(), v + fe(2)), ("+3".into(), v + fe(3)), ("^1".into(), if v == zero() { one() } else { zero() })]));
+                c.confirm = tier == Tier::Thorough || p <= 4 || p % 32 == 0 || p == 127;
+                out.push(c);
+            }
+        }
+    }
+    out
+}
+
+pub fn main(tier: Tier, replay: Option<serde_json::Value>) -> i32 {
+    let mut run = Run::new("C10", tier, "model_checking");
+    run.rule = "cases = (AND|XOR, pair count, input pair); honest assignment + every bound-1 deviation of the gadget's allocations + the alias adversary per operand (all accumulators, products and outputs recomputed for the integer x + r together with the matching high part) re-run through the real generator and decided by M1; predicate: always satisfiable, every satisfying assignment returns AND/XOR of the low 2p bits of the canonical inputs".into();
+    let cs = cases(tier);
+    let cache = ConfirmCache::new(crate::setup::pp(1 << 10));
+    if let Some(r) = replay {
+        return crate::gadget::replay(run, &cs, &cache, &r);
+    }
+    run.bound("pair_counts", json!(pair_counts(tier)));
+    let names: Vec<String> = cs.iter().map(|c| c.g.name.clone()).collect();
+    let reps = crate::par::par_map(&cs, |c| run_case(c, &cache));
+    absorb(&mut run, reps, &names);
+    run.gate("honest satisfiable cases", run.count("honest:sat") > 0);
+    run.gate("deviations explored", run.count("deviations") > 1000);
+    run.assumptions = vec![
+        "M1 row model (bound to the prover by C05) decides satisfiability".into(),
+        "values from the boundary alphabet; adversary: bound-1 deviations plus the per-operand alias assignment".into(),
+    ];
+    run.finish()
 }
